@@ -2,8 +2,8 @@
 //! working, with identical observable behaviour, when the memory block containing it is copied
 //! byte-for-byte to a different address (as happens in every other process that maps the segment).
 //!
-//! Every execution builds the structure twice, each in its own anonymous mmap block (header at the
-//! block start, payload bump-allocated behind it in the same block): the *subject*, which the
+//! Every execution builds the structure twice, each in its own page-aligned block of anonymous mmap
+//! memory (header at the block start, payload bump-allocated behind it in the same block): the *subject*, which the
 //! operation `Relocate` copies to a fresh block (the old one becomes PROT_NONE and stays mapped, so
 //! a stray absolute pointer faults), and the *twin*, which never moves. Oracles after every step:
 //!   reloc-divergence  return value / observation of the subject != twin
@@ -222,6 +222,7 @@ struct Blocks {
     len: usize,
     /// address of the first block reserved for this execution
     first: usize,
+    arena: usize,
     /// every block used by this execution: [0] twin, [1] first location, [2..] relocations
     all: Vec<*mut u8>,
 }
@@ -261,7 +262,7 @@ impl Blocks {
         }
         let first = a.base + a.next * len;
         a.next += BLOCKS_PER_EXECUTION;
-        Ok(Blocks { len, first, all: Vec::new() })
+        Ok(Blocks { len, first, arena: a.base, all: Vec::new() })
     }
 
     fn map(&mut self) -> Result<*mut u8, Fail> {
@@ -379,30 +380,32 @@ impl<S: Subject> Inst<S> {
 
     fn scan(&self) -> Result<(), Fail> {
         let len = self.blocks.len;
+        let (lo, hi) = (self.blocks.arena, self.blocks.arena + ARENA_BLOCKS * len);
         for i in 0..len / 8 {
             let w = unsafe { std::ptr::read_volatile((self.live as *const u64).add(i)) } as usize;
-            for (bi, &b) in self.blocks.all.iter().enumerate() {
-                let b = b as usize;
-                if w >= b && w <= b + len {
-                    let which = if b == self.live as usize {
-                        "the live block itself"
-                    } else if bi == 0 {
-                        "the block of the never-relocated twin"
-                    } else {
-                        "an earlier location of the block (now PROT_NONE)"
-                    };
-                    return Err(Fail::new(
-                        "absolute-address",
-                        S::KIND,
-                        format!(
-                            "the 8-byte word at block offset {} holds an absolute address: it points {} bytes into {which} (after {} relocation(s))",
-                            i * 8,
-                            w - b,
-                            self.relocs
-                        ),
-                    ));
-                }
+            // nothing legitimate points anywhere into the arena all blocks come from
+            if w < lo || w > hi {
+                continue;
             }
+            let inside = |b: *mut u8| w >= b as usize && w <= b as usize + len;
+            let target = if inside(self.live) {
+                format!("{} bytes into the live block itself", w - self.live as usize)
+            } else if inside(self.twin) {
+                format!("{} bytes into the block of the never-relocated twin", w - self.twin as usize)
+            } else if let Some(b) = self.blocks.all.iter().find(|b| inside(**b)) {
+                format!("{} bytes into an earlier location of the block (now PROT_NONE)", w - *b as usize)
+            } else {
+                "into the block arena outside the blocks of this execution".to_string()
+            };
+            return Err(Fail::new(
+                "absolute-address",
+                S::KIND,
+                format!(
+                    "the 8-byte word at block offset {} holds an absolute address: it points {target} (after {} relocation(s))",
+                    i * 8,
+                    self.relocs
+                ),
+            ));
         }
         Ok(())
     }
